@@ -80,6 +80,10 @@ def evaluate(case):
         sc.decoy_instances()
         for d in case["datasets"]:
             s.add_dataset(sc.to_info(d))
+        if len(case["datasets"][0]["x"]) % 7 == 0 and s.sq_individuals.shape[1] >= 1:
+            # a point at a tiny positive Q (the storage array is public; 1e-9 is "Q > 0" like any other)
+            tiny = np.array([[1e-9], [float(s.sq_individuals[1][0]) + 0.25], [0.0]])
+            s.sq_individuals = np.concatenate([tiny, s.sq_individuals], axis=1)
         stored = s.sq_individuals.copy()
         s.merge_data()
     except Exception as ex:  # noqa: BLE001
